@@ -180,11 +180,11 @@ def handle (cmd : String) (j : J) : Except String J :=
     match ← (← j.get "op").toStr with
     | "inner_join" => do
       let u ← tableOfJ (← j.get "u")
-      pure (resJ (t.innerJoin u (← strsOfJ (← j.get "ks")) (← strsOfJ (← j.get "ko"))))
+      pure (resJ (t.innerJoinCur u (← strsOfJ (← j.get "ks")) (← strsOfJ (← j.get "ko"))))
     | "natural_join" => do
       let u ← tableOfJ (← j.get "u")
       let (ks, ko) := t.naturalKeys u
-      pure (resJ (t.innerJoin u ks ko))
+      pure (resJ (t.innerJoinCur u ks ko))
     | "cross_join" => do
       let u ← tableOfJ (← j.get "u")
       pure (resJ (pure (t.crossJoin u)))
@@ -199,7 +199,7 @@ def handle (cmd : String) (j : J) : Except String J :=
       pure (exJ (fun n => .num n) (t.count p (← strsOfJ (← j.get "columns"))))
     | "filtered_by_column" => do
       let p ← cpredOfJ (← j.get "cpred")
-      pure (resJ (pure (t.filteredByColumn p)))
+      pure (resJ (pure (t.filteredByColumnCur p)))
     | "getitem" => do
       let rows ← rowSelOfJ (← j.get "rows")
       let cs ← colSelOfJ (← j.get "cols")
@@ -221,7 +221,7 @@ def handle (cmd : String) (j : J) : Except String J :=
       let nc ← match ← j.get "new" with
         | .null => pure none
         | x => do pure (some (← x.toStr))
-      pure (resJ (t.appended nc others))
+      pure (resJ (t.appendedCur nc others))
     | "transposed" => do
       let sel ← match ← j.get "select" with
         | .null => pure none
